@@ -415,6 +415,18 @@ class Effects:
             return "partition always yields three parts"
         if isinstance(v, (ast.Tuple, ast.List)) and idx is not None and -len(v.elts) <= idx < len(v.elts):
             return "constant container"
+        # a literal key of a dictionary display: directly, or the class-level table self.X / cls.X that nothing assigns
+        table = v if isinstance(v, ast.Dict) else None
+        if table is None and isinstance(v, ast.Attribute) and isinstance(v.value, ast.Name) and v.value.id in ("self", "cls") and f.cls is not None:
+            cand = self.p.find_class_attr(f.cls, v.attr)
+            assigned = any(isinstance(n, ast.Attribute) and n.attr == v.attr and isinstance(n.ctx, (ast.Store, ast.Del))
+                           for m in self.p.modules.values() if m.kind != "dep" for n in ast.walk(m.tree))
+            mutated = any(isinstance(n, ast.Subscript) and isinstance(n.ctx, (ast.Store, ast.Del)) and isinstance(n.value, ast.Attribute)
+                          and n.value.attr == v.attr for m in self.p.modules.values() if m.kind != "dep" for n in ast.walk(m.tree))
+            if isinstance(cand, ast.Dict) and not assigned and not mutated:
+                table = cand
+        if table is not None and isinstance(s, ast.Constant) and any(isinstance(k, ast.Constant) and k.value == s.value for k in table.keys):
+            return "literal key of a dictionary display"
         g = self._membership_guard(f, cfg, sub, v, s)
         if g:
             return g
